@@ -623,7 +623,7 @@ fn scenario_c09(p: Params, path: String) {
         hs.push(shuttle::thread::spawn(move || {
             let mut last = 0u64;
             for round in 0..p.rounds {
-                if (r + round) % 3 == 2 {
+                if (r + round) % 3 == 0 {
                     // the database's own consistency check is a reader like any other: it must
                     // not be blocked by an open writer, and must not block one
                     probe("check_called_concurrently");
